@@ -2,7 +2,7 @@
     Model: Core/Value.v, Core/Syntax.v, Core/Render.v (the interpreter for the
     Core Liquid Fragment, which the correspondence run ties to /repo).
     The theorems state the documented laws of that semantics. *)
-From LQ Require Import Core.Render Proofs.Value_proofs Proofs.Render_proofs.
+From LQ Require Import Core.Render Proofs.Value_proofs Proofs.Render_proofs Proofs.Render_buffer.
 
 (** Sequencing is compositional: rendering [l1 ++ l2] is rendering [l1] and
     then [l2] from where [l1] stopped; the meaning of a construct does not
@@ -80,3 +80,20 @@ Print Assumptions c01_ordering_irreflexive.
 Theorem c01_ordering_int : forall x y, liq_lt (VInt x) (VInt y) = Some (x <? y)%Z.
 Proof. exact liq_lt_int. Qed.
 Print Assumptions c01_ordering_int.
+
+(** Context independence on the output side: for EVERY node, the outcome, the
+    effect on the context and the text appended are the same whatever has been
+    written before it (same for any two buffers that are both real or both
+    null); so the meaning of a construct does not change with the constructs
+    that precede it other than through the context. *)
+Theorem c01_output_compositional : forall g ld fuel n c b1 b2,
+  null b1 = null b2 ->
+  brel b1 b2 (render g ld fuel n c b1) (render g ld fuel n c b2).
+Proof. exact render_output_compositional. Qed.
+Print Assumptions c01_output_compositional.
+
+(** Output is only ever appended: earlier output is never rewritten. *)
+Theorem c01_output_only_appended : forall g ld fuel n c b,
+  exists d, text (bf (render g ld fuel n c b)) = text b ++ d.
+Proof. exact render_appends. Qed.
+Print Assumptions c01_output_only_appended.
